@@ -13,5 +13,6 @@ def run(tier, seed, work):
     mc = [("MC_Bridge.tla", "MC_Bridge_params.cfg" if quick else "MC_Bridge_params_thorough.cfg")]
     per, depth, nj = (3, 40, 10) if quick else (25, 50, 12)
     groups = [("Trace_Bridge.tla", "Trace_Bridge_C20.cfg", bc.jobs("c20", seed + 2, per, depth, nj, mode="params"))]
+    proofs = [verif.prove("Proofs_BridgeArith", work)]   # TLAPS: tax < value, credited amount > 0, tax <= cap, accepted tax pairs keep the rate below 100% - for every value
     return verif.run_stateful_check("C20", tier, seed, work, mc_list=mc, groups=groups, key_fn=bc.key,
-                                    level="model_checking", assumptions=bc.ASSUME + ["64-bit values above 2^31 are represented by 2e9 in the model and by 2^63 / 2^64-1 in the driver"], rule=RULE)
+                                    level="model_checking", extra_cov=dict(unbounded_lemmas=proofs), assumptions=bc.ASSUME + ["64-bit values above 2^31 are represented by 2e9 in the model and by 2^63 / 2^64-1 in the driver"], rule=RULE)
